@@ -31,7 +31,7 @@ partial def loop (h : IO.FS.Stream) (out : IO.FS.Stream) : IO Unit := do
   | ["strtod", hex] =>
     match unhex hex with
     | some data =>
-      let inp : Inp := ⟨data⟩
+      let inp : Inp := Inp.ofBytes data
       let (p, v) := strtod inp.rd (inp.len + 2) 0
       out.putStrLn s!"strtod {p} {dblStr v}"
     | none => out.putStrLn "bad-op"
